@@ -185,6 +185,28 @@ PROPS.update({
                         "written by replay code, an old WAL is unlinked only after a global sync that follows the last primary write; a further restart writes to no primary file"),
         "budget": {"quick": 45, "thorough": 900},
     },
+    "C07": {
+        "level": "exploration", "engine": "SCHED",
+        "rule": ("2-4 writer tasks and 1-2 reader tasks (3-7 operations each, think times up to 600 virtual ms) against the real server with the background WAL writer running, "
+                 "writers colliding on three hot intervals per bucket; the seeded scheduler preempts at every channel, lock and file operation with probability 2/10/30/60%; "
+                 "which ready select case the WAL writer takes is a tape choice; channel depth 64/1024/4096; 20% of runs start the clients before the WAL writer task has run (cold start); "
+                 "distinct_nontrivial = distinct schedule signatures (hash of the task-switch sequence, #preemptions, #operations)"),
+        "faults": ["seeded preemption at every yield point", "virtual-time flush/check/checkpoint tickers", "power loss at the instant of each acknowledgement (nothing un-synced survives)"],
+        "assumptions": ["tasks interleave at yield points only (file, lock, channel operations); invoke/return are stamped with a global event counter",
+                        A_POWER],
+        "explanation": ("oracles: (1) per (bucket, interval) register and per variable bucket multiset: a query that starts after a write returned shows that write or one not entirely before it, never a value "
+                        "issued after the query returned, never a duplicate; porcupine linearizability check per register in 30% of quick runs and all thorough runs; "
+                        "(2) durability at ack: the power-loss image taken at the acknowledgement, with every un-synced write dropped, recovers the write (4 acks per run in quick, all in thorough)"),
+        "budget": {"quick": 40, "thorough": 900},
+    },
+    "C18": {
+        "level": "exploration", "engine": "SCHED",
+        "rule": ("as C07 with 2-4 readers, 60% variable-length buckets, 4-9 operations per task; distinct_nontrivial = distinct schedule signatures"),
+        "faults": ["seeded preemption at every yield point", "virtual-time tickers"],
+        "assumptions": ["tasks interleave at yield points only: a data race between two plain memory accesses with no file/lock/channel operation in between is outside this check (the deterministic race-detector build of DESIGN.md §2.8 was not built)"],
+        "explanation": "oracles: no task or request panics; no query of a bucket holding acknowledged data fails; every returned row is attributable to exactly one issued write with all columns from that write; reads obey the register/multiset rules of C07",
+        "budget": {"quick": 40, "thorough": 900},
+    },
     "C09": {
         "level": "exploration", "engine": "MODEL", "rule": MODEL_RULE,
         "faults": ["none (fault-free configuration)", "graceful restart", "compression on/off", "highly compressible payload bursts"],
